@@ -102,6 +102,40 @@ pub fn examine_program(text: &str, origin: &str, seed: u64, report: &mut Report)
                     eprintln!("=== emitted text rejected ({}): {}", origin, d);
                 }
                 report.count(&format!("emitted-rejected:{}", d.lines().next().unwrap_or("").splitn(4, ':').last().unwrap_or("").trim().chars().take(50).collect::<String>()));
+                // ... except for one thing that is this property's business: a name in the emitted text that resolves to nothing
+                // (every use must refer to the entity it referred to in the source). The C-like interpreter resolves names itself.
+                if let Front::Ok(tree) = rs::parse_text(&emitted) {
+                    let no_globals = std::collections::BTreeMap::new();
+                    'functions: for (fi, (name, id)) in functions.iter().enumerate() {
+                        let imp = src_ir.function_registry.get_function_implementation(*id).as_ref().unwrap();
+                        let Ok(proto) = Exec::new(&src_ir) else { break };
+                        for k in 0..4u64 {
+                            let mut rng = Rng::for_case(seed, hash_str(name) ^ (fi as u64) << 8, k);
+                            let mut args = Vec::new();
+                            for p in &imp.params {
+                                match sample::value_for(&proto, p.param_type.type_id, &mut rng, true) {
+                                    Some(v) => args.push(v),
+                                    None => continue 'functions,
+                                }
+                            }
+                            if !matches!(diffexec::ground_truth(&src_ir, *id, &args), Truth::Defined(_)) {
+                                continue;
+                            }
+                            if let Err(crate::oracle::val::Trap::IllTyped(msg)) = diffexec::run_tree(&tree, crate::oracle::cexec::Dialect::Hlsl, name, &args, &no_globals) {
+                                if msg.starts_with("unknown identifier") {
+                                    report.evaluations += 1;
+                                    let w = witness(seed, text, origin, flavour, name, &args, &emitted, "defined", &msg);
+                                    report.violation(
+                                        "emitted-name-unresolved",
+                                        &format!("function {} of the emitted {} uses a name that no declaration in scope provides: {}", name, flavour.name(), msg),
+                                        w,
+                                    );
+                                    break 'functions;
+                                }
+                            }
+                        }
+                    }
+                }
                 continue;
             }
             Front::Panic(c) => {
@@ -327,6 +361,9 @@ pub fn scoping_programs() -> Vec<String> {
         "int fwd(int a, int b);\nint s5(int x) { return fwd(x, 2); }\nint fwd(int a, int b) { return a * b + 1; }\n",
         "int dflt(int a, int b = 3);\nint dflt(int a, int b) { return a * b + 1; }\nint s6(int x) { return dflt(x) + dflt(x, 5); }\n",
         "int dflt2(int a, int b = 3) { return a * b + 1; }\nint s7(int x) { return dflt2(x) + dflt2(x, 5); }\n",
+        // a constant buffer inside a namespace used from outside; one struct bound to two template parameters
+        "namespace NS { cbuffer C { float4 cv; } float g() { return cv.y; } namespace In { cbuffer D { float dv; } } }\nfloat s10(float x) { return NS::cv.x + NS::g() + NS::In::dv + x; }\n",
+        "struct Mat { float v; };\ntemplate<typename A, typename B> float addv(A a, B b) { return a.v + b.v * 2.0f; }\nfloat s11(float x) { Mat m; m.v = x; Mat n; n.v = x + 1.0f; return addv(m, n); }\n",
         // user names spelled like the names the exporters generate for an overload set / a reserved word
         "float weight(float x) { return x * 2.0f; }\nfloat weight(int x) { return (float)x + 0.5f; }\nfloat s8(float x) { float weight_0 = weight(x); float weight_1 = weight((int)x); return weight_0 + weight_1 * 4.0f + weight(weight_0); }\n",
         "static float kernel = 1.5f;\nstatic float technique = 2.5f;\nfloat s9(float x) { float kernel_0 = x; float technique_0 = x * 3.0f; kernel += 1.0f; return kernel - kernel_0 + technique * technique_0; }\n",
